@@ -307,6 +307,24 @@ pub fn c07(thorough: bool) -> Vec<Part> {
     b.flush_action = true;
     cfgs.push(b);
     {
+        // a pipelined pair whose client shuts down its read side (the next write to it fails while
+        // an answer is still owed) and then leaves; a late client takes the freed descriptor
+        let mut pair = tagged_get(0, 0);
+        pair.extend_from_slice(&tagged_get(0, 1));
+        let mut s0 = ClientCfg::adversary(vec![pair]);
+        s0.reads = false;
+        s0.can_shut_rd = true;
+        s0.can_shut_wr = false;
+        let mut s1 = ClientCfg::adversary(vec![tagged_get(1, 0)]);
+        s1.reads = true;
+        s1.can_close = false;
+        s1.can_shut_rd = false;
+        s1.can_shut_wr = false;
+        let mut scfg = SrvCfg::base("C07", "pipelined pair, shutdown(RD) then close with an answer owed after a failed write; late client on the freed descriptor", vec![s0, s1]);
+        scfg.max_outstanding_for_respond = 2;
+        cfgs.push(scfg);
+    }
+    {
         // three pipelined requests of one client + a second client: batches of answers through
         // enqueue_responses must arrive in supply order
         let mut triple = tagged_get(0, 0);
@@ -473,6 +491,24 @@ pub fn c07(thorough: bool) -> Vec<Part> {
             path.extend([SAct::Connect(2), SAct::Poll(0), SAct::Poll(0), SAct::Respond(0, 0), SAct::Poll(0), SAct::Poll(0), SAct::Recv(2, 0), SAct::Send(2), SAct::Poll(0), SAct::Respond(0, 0), SAct::Respond(0, 0), SAct::Poll(0), SAct::Poll(0), SAct::Recv(2, 0), SAct::Recv(1, 0)]);
             let from = 8 + polls.saturating_sub(2);
             histories(&mut part, &cfg, path, from);
+        }
+    }
+    if part.violations.is_empty() {
+        // large batches handed over in one enqueue_responses() call, alternating between clients
+        for per_client in [9usize, 17, 20, 33] {
+            let flood = |c: usize| {
+                let mut v = vec![];
+                for k in 0..per_client {
+                    v.extend_from_slice(&tagged_get(c, k));
+                }
+                let mut cl = ClientCfg::well_behaved(vec![v]);
+                cl.reads = true;
+                cl
+            };
+            let mut cfg = SrvCfg::base("C07", &format!("scripted: three clients pipelining {} requests each, all answered in one alternating batch", per_client), vec![flood(0), flood(1), flood(2)]);
+            cfg.max_depth = 1000;
+            let path = vec![SAct::Connect(0), SAct::Poll(0), SAct::Connect(1), SAct::Poll(0), SAct::Connect(2), SAct::Poll(0), SAct::Send(0), SAct::Send(1), SAct::Send(2), SAct::Poll(0), SAct::RespondAll(0x80), SAct::Poll(0), SAct::Poll(0), SAct::Recv(0, 0), SAct::Recv(1, 0), SAct::Recv(2, 0), SAct::Poll(0), SAct::Recv(0, 0), SAct::Recv(1, 0), SAct::Recv(2, 0)];
+            histories(&mut part, &cfg, path, 10);
         }
     }
     run_matrix(&mut part, "C07", thorough);
